@@ -182,6 +182,10 @@ func (r *ParseRequestResponse) injectFile(upload *Upload, paths []string) error 
 				variables = v
 			// if we hit nil, then we have found the variable to replace with the file and have hit the end of parts
 			case nil:
+				// nothing can follow the position of the file
+				if i+1 < len(parts) {
+					return fmt.Errorf("invalid number of parts in path: %s", path)
+				}
 				variables[parts[i]] = upload
 			// if we find a list then find the the variable to replace at the parts index (supports: [Upload!]!)
 			case []interface{}:
@@ -208,6 +212,10 @@ func (r *ParseRequestResponse) injectFile(upload *Upload, paths []string) error 
 
 				// skip the final iteration through parts (skips the index definition, ex: the "2" in: variables.input.files.2)
 				i++
+				// nothing can follow the position of the file
+				if i+1 < len(parts) {
+					return fmt.Errorf("invalid number of parts in path: %s", path)
+				}
 			default:
 				return fmt.Errorf("expected nil value, got %v", v) // possibly duplicate path or path to non-null variable
 			}
